@@ -6,6 +6,7 @@ import RigModel.Lemmas.C04
 import RigModel.Lemmas.C04Apply
 import RigModel.Lemmas.C04Top
 import RigModel.Lemmas.C04Brute
+import RigModel.Lemmas.C04Term
 set_option linter.unusedSimpArgs false
 set_option linter.unusedVariables false
 
@@ -116,8 +117,9 @@ theorem refine_ok (T : List Entry) (A : Aliases) (minG : Int) (hs : SortedGen T)
     (es : List Nat) (hv : ∀ i ∈ es, i < T.length) (m' : Merge)
     (h : refineMerge T A (mkMerge T es) minG = some m') :
     ∃ es', m' = mkMerge T es' ∧ (∀ i ∈ es', i ∈ es) ∧
-      (m'.goodness > minG → UpOk T m' ∧ DownOk T A m') :=
-  refineMerge_spec T A minG hs h0 es hv m' h
+      (m'.goodness > minG → UpOk T m' ∧ DownOk T A m') := by
+  obtain ⟨es', h1, h2, h3, _⟩ := refineMerge_spec T A minG hs h0 es hv m' h
+  exact ⟨es', h1, h2, h3⟩
 
 /-- **orderedCovering_inv.** `ordered_covering` started on any table with an alias dictionary
 that satisfies the invariant for the sorted table (e.g. the empty one, or the one returned by a
@@ -404,6 +406,163 @@ theorem minimiseTables_equiv (chips : List (Nat × List Entry × Option Nat)) (m
             · exact ⟨by simpa using he, (chip, T, target), by simp, rfl, hr⟩
             · obtain ⟨h1, x, hx, h2⟩ := ih2 y hy
               exact ⟨h1, x, List.mem_cons_of_mem _ hx, h2⟩
+
+/-! ## The loops terminate: the out-of-fuel marker of the model is unreachable -/
+
+/-- **orderedCovering_total.** `ordered_covering` never runs out of fuel (every round of the
+down-check removes a member of the merge; every applied merge shortens the table), for any
+table, target and alias dictionary: its only error is `MinimisationFailedError`. -/
+theorem orderedCovering_total (T : List Entry) (target : Option Nat) (A : Aliases) (noRaise : Bool) :
+    orderedCovering T target A noRaise ≠ .error .fuel := by
+  have h := ocLoop_total (T.length + 2) (sortTable T) target A (sortTable_sorted T)
+    (by rw [sortTable_length]; omega)
+  simp only [orderedCovering]
+  split
+  · rename_i e he
+    intro hc; cases hc; exact h he
+  · split
+    · split
+      · intro hc; cases hc
+      · intro hc; cases hc
+    · intro hc; cases hc
+
+theorem runMethod_total (f : Method) (T : List Entry) (target : Option Nat) :
+    runMethod f T target ≠ .error .fuel := by
+  cases f with
+  | identity =>
+    simp only [runMethod, identityMin]
+    split
+    · intro h; cases h
+    · split <;> intro h <;> cases h
+  | rd =>
+    simp only [runMethod, removeDefault]
+    split
+    · split <;> intro h <;> cases h
+    · intro h; cases h
+  | oc =>
+    simp only [runMethod, ocMinimise]
+    split
+    · rename_i e he
+      intro hc; cases hc
+      exact orderedCovering_total T target [] true he
+    · simp only [removeDefault]
+      split
+      · split <;> intro h <;> cases h
+      · intro h; cases h
+
+/-- **minimiseTable_total.** The method chain's only error is `MinimisationFailedError`, and
+without a target it always returns a table. -/
+theorem minimiseTable_total (T : List Entry) (target : Option Nat) (methods : List Method) :
+    minimiseTable T target methods ≠ .error .fuel ∧
+    (target = none → ∃ T', minimiseTable T none methods = .ok T') := by
+  constructor
+  · intro h
+    cases target with
+    | some t =>
+      rcases minimiseTable_failure T t methods _ h with ⟨b, hb⟩ | _
+      · cases hb
+      · simp only [minimiseTable] at h
+        generalize (Method.identity :: methods) = ms at h
+        generalize T.length = best at h
+        induction ms generalizing best with
+        | nil => simp only [tryLoop] at h; cases h
+        | cons f rest ih =>
+          simp only [tryLoop] at h
+          split at h
+          · cases h
+          · exact ih _ h
+          · rename_i e' hne hf
+            cases h
+            exact runMethod_total f T (some t) hf
+    | none =>
+      simp only [minimiseTable] at h
+      generalize (Method.identity :: methods) = ms at h
+      generalize (none : Option (List Entry)) = best at h
+      induction ms generalizing best with
+      | nil => cases best <;> simp only [minLoop] at h <;> cases h
+      | cons f rest ih =>
+        simp only [minLoop] at h
+        split at h
+        · rename_i e he
+          cases h
+          exact runMethod_total f T none he
+        · split at h
+          · exact ih _ h
+          · exact ih _ h
+  · intro _
+    have key : ∀ (ms : List Method) (best : Option (List Entry)), ∃ T', minLoop T ms best = .ok T' := by
+      intro ms
+      induction ms with
+      | nil => intro best; cases best <;> exact ⟨_, rfl⟩
+      | cons f rest ih =>
+        intro best
+        simp only [minLoop]
+        have hno : ∀ e, runMethod f T none ≠ .error e := by
+          intro e he
+          cases e with
+          | fuel => exact runMethod_total f T none he
+          | minFailed a b =>
+            cases f with
+            | identity => simp [runMethod, identityMin] at he
+            | rd => simp [runMethod, removeDefault] at he
+            | oc =>
+              simp only [runMethod, ocMinimise] at he
+              split at he
+              · rename_i e' he'
+                cases he
+                simp only [orderedCovering] at he'
+                split at he'
+                · rename_i e'' hl
+                  cases he'
+                  -- the loop itself never produces MinimisationFailed
+                  have : ∀ fuel T A, ocLoop fuel T none A ≠ .error (.minFailed a b) := by
+                    intro fuel
+                    induction fuel with
+                    | zero => intro T A h; simp [ocLoop] at h
+                    | succ fuel ih =>
+                      intro T A h
+                      simp only [ocLoop] at h
+                      split at h
+                      · split at h
+                        · cases h
+                        · split at h
+                          · cases h
+                          · exact ih _ _ h
+                      · cases h
+                  exact this _ _ _ hl
+                · cases he'
+              · simp [removeDefault] at he
+        split
+        · rename_i e he; exact absurd he (hno e)
+        · split
+          · exact ih _
+          · exact ih _
+    simp only [minimiseTable]
+    exact key _ _
+
+/-- **target clause, ordered covering.** With a target and without `no_raise` the call returns a
+table that meets the target, or raises `MinimisationFailedError(target, n)` with `n > target` -
+nothing else. -/
+theorem orderedCovering_target_total (T : List Entry) (t : Nat) (A : Aliases) :
+    (∃ r, orderedCovering T (some t) A false = .ok r ∧ r.1.length ≤ t) ∨
+    (∃ n, orderedCovering T (some t) A false = .error (.minFailed t n) ∧ t < n) := by
+  rcases orderedCovering_target T t A with h | h | h
+  · exact Or.inl h
+  · exact Or.inr h
+  · exact absurd h (orderedCovering_total T (some t) A false)
+
+/-- **target clause, method chain.** With a target, `minimise_table` returns a table that meets
+it or raises `MinimisationFailedError(target, best)` - nothing else (see `minimiseTable_best`
+for what `best` is). -/
+theorem minimiseTable_target_total (T : List Entry) (t : Nat) (methods : List Method) :
+    (∃ T', minimiseTable T (some t) methods = .ok T') ∨
+    (∃ best, minimiseTable T (some t) methods = .error (.minFailed t best)) := by
+  cases h : minimiseTable T (some t) methods with
+  | ok T' => exact Or.inl ⟨T', rfl⟩
+  | error e =>
+    rcases minimiseTable_failure T t methods e h with ⟨b, rfl⟩ | rfl
+    · exact Or.inr ⟨b, rfl⟩
+    · exact absurd h (minimiseTable_total T (some t) methods).1
 
 /-! ## The oracle of the check is the specification -/
 
